@@ -23,14 +23,60 @@ Theorem C06_gate_closing n cid c m :
   dispatch n cid m = (n, []).
 Proof. exact (@NodeA.C06_gate_closing n cid c m). Qed.
 
-(* C06: a CER of a configured peer sharing an application is answered 2001 and the connection becomes READY *)
+(* C06: a CER of a configured peer sharing an application, the election being decided for the new connection
+   (no other connection towards that peer, or the local name is the greater one): the rivals are closed
+   (CLEAN), the CER is answered 2001 and the connection becomes READY *)
 Theorem C06_cer_known n cid c m h p :
   get_conn n cid = Some c -> m_origin m = Present h -> get_peer n h = Some p ->
+  (election_rivals n cid h = [] \/ String.ltb h (g_host (n_cfg n)) = true) ->
+  (inter_z (node_auth n) (m_auth m) <> [] \/ inter_z (node_acct n) (m_acct m) <> [] \/
+   mem_z APP_RELAY (m_auth m) || mem_z APP_RELAY (m_acct m) = true) ->
+  snd (recv_cer n cid m) =
+    snd (close_all n (election_rivals n cid h) R_CLEAN) ++ [OQueue cid (answer_of m (Some 2001) [])] /\
+  (forall k, List.In k (election_rivals n cid h) ->
+     List.In (OClose k R_CLEAN) (snd (recv_cer n cid m)) /\ get_conn (fst (recv_cer n cid m)) k = None) /\
+  exists c', get_conn (fst (recv_cer n cid m)) cid = Some c' /\ c_state c' = SReady /\ c_host c' = h.
+Proof. exact (@NodeA.C06_cer_known n cid c m h p). Qed.
+
+(* C06: ... with no other connection towards that peer the answer is the only output *)
+Theorem C06_cer_known_no_rivals n cid c m h p :
+  get_conn n cid = Some c -> m_origin m = Present h -> get_peer n h = Some p ->
+  election_rivals n cid h = [] ->
   (inter_z (node_auth n) (m_auth m) <> [] \/ inter_z (node_acct n) (m_acct m) <> [] \/
    mem_z APP_RELAY (m_auth m) || mem_z APP_RELAY (m_acct m) = true) ->
   snd (recv_cer n cid m) = [OQueue cid (answer_of m (Some 2001) [])] /\
   exists c', get_conn (fst (recv_cer n cid m)) cid = Some c' /\ c_state c' = SReady /\ c_host c' = h.
-Proof. exact (@NodeA.C06_cer_known n cid c m h p). Qed.
+Proof. exact (@NodeA.C06_cer_known_no_rivals n cid c m h p). Qed.
+
+(* C06: the election is won (there are other connections towards the peer and the local name is the
+   greater one): every rival is closed (CLEAN) and removed, then the CER is answered 2001, READY *)
+Theorem C06_cer_election_won n cid c m h p :
+  get_conn n cid = Some c -> m_origin m = Present h -> get_peer n h = Some p ->
+  election_rivals n cid h <> [] -> String.ltb h (g_host (n_cfg n)) = true ->
+  (inter_z (node_auth n) (m_auth m) <> [] \/ inter_z (node_acct n) (m_acct m) <> [] \/
+   mem_z APP_RELAY (m_auth m) || mem_z APP_RELAY (m_acct m) = true) ->
+  (forall k, List.In k (election_rivals n cid h) ->
+     List.In (OClose k R_CLEAN) (snd (recv_cer n cid m)) /\ get_conn (fst (recv_cer n cid m)) k = None) /\
+  (exists oel, snd (recv_cer n cid m) = oel ++ [OQueue cid (answer_of m (Some 2001) [])] /\ oel <> [] /\
+     forall o, List.In o oel -> exists k, List.In k (election_rivals n cid h) /\ o = OClose k R_CLEAN) /\
+  (List.NoDup (cids n) ->
+     snd (recv_cer n cid m) = List.map (fun k => OClose k R_CLEAN) (election_rivals n cid h)
+                              ++ [OQueue cid (answer_of m (Some 2001) [])]) /\
+  exists c', get_conn (fst (recv_cer n cid m)) cid = Some c' /\ c_state c' = SReady /\ c_host c' = h.
+Proof. exact (@NodeA.C06_cer_election_won n cid c m h p). Qed.
+
+(* C06: the election is lost (there are other connections towards the peer and the local name is not the
+   greater one): the CER is answered 4003, the connection is CLOSING, nothing else changes: in particular no
+   connection becomes ready *)
+Theorem C06_cer_election_lost n cid c m h p :
+  get_conn n cid = Some c -> m_origin m = Present h -> get_peer n h = Some p ->
+  election_rivals n cid h <> [] -> String.ltb h (g_host (n_cfg n)) = false ->
+  snd (recv_cer n cid m) = [OQueue cid (answer_of m (Some 4003) [])] /\
+  (exists c', get_conn (fst (recv_cer n cid m)) cid = Some c' /\ c_state c' = SClosing) /\
+  (forall j, j <> cid -> get_conn (fst (recv_cer n cid m)) j = get_conn n j) /\
+  (forall j cj, get_conn (fst (recv_cer n cid m)) j = Some cj -> is_ready_state (c_state cj) = true ->
+     exists cj0, get_conn n j = Some cj0 /\ is_ready_state (c_state cj0) = true).
+Proof. exact (@NodeA.C06_cer_election_lost n cid c m h p). Qed.
 
 (* C06: a CER of an unknown peer is answered 3010 and the connection is CLOSING *)
 Theorem C06_cer_unknown n cid c m h :
@@ -39,14 +85,29 @@ Theorem C06_cer_unknown n cid c m h :
   exists c', get_conn (fst (recv_cer n cid m)) cid = Some c' /\ c_state c' = SClosing.
 Proof. exact (@NodeA.C06_cer_unknown n cid c m h). Qed.
 
-(* C06: a CER of a configured peer with no common application is answered 5010; the state is unchanged *)
+(* C06: a CER of a configured peer with no common application, the election being decided for the new
+   connection: the rivals are closed, the CER is answered 5010; the state is unchanged *)
 Theorem C06_cer_no_common n cid c m h p :
   get_conn n cid = Some c -> m_origin m = Present h -> get_peer n h = Some p ->
+  (election_rivals n cid h = [] \/ String.ltb h (g_host (n_cfg n)) = true) ->
+  inter_z (node_auth n) (m_auth m) = [] -> inter_z (node_acct n) (m_acct m) = [] ->
+  mem_z APP_RELAY (m_auth m) || mem_z APP_RELAY (m_acct m) = false ->
+  snd (recv_cer n cid m) =
+    snd (close_all n (election_rivals n cid h) R_CLEAN) ++ [OQueue cid (answer_of m (Some 5010) [])] /\
+  (forall k, List.In k (election_rivals n cid h) ->
+     List.In (OClose k R_CLEAN) (snd (recv_cer n cid m)) /\ get_conn (fst (recv_cer n cid m)) k = None) /\
+  exists c', get_conn (fst (recv_cer n cid m)) cid = Some c' /\ c_state c' = c_state c.
+Proof. exact (@NodeA.C06_cer_no_common n cid c m h p). Qed.
+
+(* C06: ... with no other connection towards that peer the 5010 answer is the only output *)
+Theorem C06_cer_no_common_no_rivals n cid c m h p :
+  get_conn n cid = Some c -> m_origin m = Present h -> get_peer n h = Some p ->
+  election_rivals n cid h = [] ->
   inter_z (node_auth n) (m_auth m) = [] -> inter_z (node_acct n) (m_acct m) = [] ->
   mem_z APP_RELAY (m_auth m) || mem_z APP_RELAY (m_acct m) = false ->
   snd (recv_cer n cid m) = [OQueue cid (answer_of m (Some 5010) [])] /\
   exists c', get_conn (fst (recv_cer n cid m)) cid = Some c' /\ c_state c' = c_state c.
-Proof. exact (@NodeA.C06_cer_no_common n cid c m h p). Qed.
+Proof. exact (@NodeA.C06_cer_no_common_no_rivals n cid c m h p). Qed.
 
 (* C06: the I/O thread writes the buffered answer of a CLOSING connection, then closes it (CLEAN) and removes it *)
 Theorem C06_unknown_then_closed n cid c :
@@ -67,12 +128,45 @@ Theorem C06_outbound_first_is_cer n name h0 p :
     c_state c' = SConnected /\ c_recv c' = false.
 Proof. exact (@NodeA.C06_outbound_first_is_cer n name h0 p). Qed.
 
-(* C06: a CEA whose Result-Code is not 2001 closes the connection (CER_REJECTED) *)
-Theorem C06_cea_rejected n cid m :
+(* C06: a CEA 2001 of the dialled peer, arriving on a CONNECTED connection, makes it READY; nothing is sent *)
+Theorem C06_cea_accepted n cid c m h :
+  get_conn n cid = Some c -> c_state c = SConnected ->
+  m_result m = Present 2001 -> m_origin m = Present h ->
+  (c_node_name c = "" \/ h = c_node_name c) ->
+  snd (recv_cea n cid m) = [] /\
+  exists c', get_conn (fst (recv_cea n cid m)) cid = Some c' /\ c_state c' = SReady /\ c_host c' = h /\
+             c_node_name c' = c_node_name c /\
+             c_auth c' = inter_z (node_auth n) (m_auth m) /\ c_acct c' = inter_z (node_acct n) (m_acct m).
+Proof. exact (@NodeA.C06_cea_accepted n cid c m h). Qed.
+
+(* C06: a CEA whose Result-Code is not 2001, arriving on a CONNECTED connection, closes it (CER_REJECTED) *)
+Theorem C06_cea_rejected n cid c m :
+  get_conn n cid = Some c -> c_state c = SConnected ->
   m_result m <> Present 2001 ->
   recv_cea n cid m = close_conn n cid R_CER_REJECTED /\
-  (forall c, get_conn n cid = Some c -> snd (recv_cea n cid m) = [OClose cid R_CER_REJECTED]).
-Proof. exact (@NodeA.C06_cea_rejected n cid m). Qed.
+  snd (recv_cea n cid m) = [OClose cid R_CER_REJECTED] /\
+  get_conn (fst (recv_cea n cid m)) cid = None.
+Proof. exact (@NodeA.C06_cea_rejected n cid c m). Qed.
+
+(* C06: a CEA 2001 whose Origin-Host is not the peer that was dialled closes the connection (CER_REJECTED) *)
+Theorem C06_cea_wrong_identity n cid c m h :
+  get_conn n cid = Some c -> c_state c = SConnected ->
+  m_result m = Present 2001 -> m_origin m = Present h ->
+  c_node_name c <> "" -> h <> c_node_name c ->
+  recv_cea n cid m = close_conn n cid R_CER_REJECTED /\
+  snd (recv_cea n cid m) = [OClose cid R_CER_REJECTED] /\
+  get_conn (fst (recv_cea n cid m)) cid = None.
+Proof. exact (@NodeA.C06_cea_wrong_identity n cid c m h). Qed.
+
+(* C06: a CEA 2001 without Origin-Host changes nothing (no partial update of the connection) *)
+Theorem C06_cea_without_origin n cid m :
+  m_result m = Present 2001 -> pres_get (m_origin m) = None -> recv_cea n cid m = (n, []).
+Proof. exact (@NodeA.C06_cea_without_origin n cid m). Qed.
+
+(* C06: a CEA is ignored unless the connection exists and is CONNECTED (the answer is awaited) *)
+Theorem C06_cea_ignored_unless_connected n cid m :
+  (forall c, get_conn n cid = Some c -> c_state c <> SConnected) -> recv_cea n cid m = (n, []).
+Proof. exact (@NodeA.C06_cea_ignored_unless_connected n cid m). Qed.
 
 (* C06: a CONNECTED connection whose CER / CEA does not arrive within the effective timeout is closed (FAILED_CE) *)
 Theorem C06_timeout n cid c :
@@ -88,7 +182,9 @@ Proof. exact (@NodeA.conns_fresh_step n ds e). Qed.
 
 (* C06: a connection that was not ready and is ready after a step: the step was a network read on that
    connection whose frames contain a CER of a configured peer or a CEA 2001; if the connection was CONNECTED
-   the message has the direction of the connection (CER on an inbound, CEA on an outbound connection) *)
+   the message has the direction of the connection (CER on an inbound, CEA on an outbound connection); in
+   every other state (CONNECTING, DISCONNECTING, CLOSING, CLOSED) it is a CER of a configured peer: a CEA
+   acts on a CONNECTED connection only *)
 Theorem C06_ready_only_by_ce n ds e cid c c' :
   (cid < n_next_cid n)%nat ->
   get_conn n cid = Some c -> is_ready_state (c_state c) = false ->
@@ -96,18 +192,63 @@ Theorem C06_ready_only_by_ce n ds e cid c c' :
   exists ms, e = ERecv cid ms /\
     (exists m, List.In m ms /\ (is_good_cer n m \/ is_good_cea m)) /\
     (c_state c = SConnected ->
-     exists m, List.In m ms /\ if c_recv c then is_good_cer n m else is_good_cea m).
+     exists m, List.In m ms /\ if c_recv c then is_good_cer n m else is_good_cea m) /\
+    (c_state c <> SConnected -> exists m, List.In m ms /\ is_good_cer n m).
 Proof. exact (@NodeA.C06_ready_only_by_ce n ds e cid c c'). Qed.
+
+(* C06: the direction of the capabilities exchange.  A connection becomes ready only by (a) a CEA 2001 while
+   it is CONNECTED and outbound, or (b) a CER of a configured peer (which, on a CONNECTED connection, passes
+   the gate only if the connection is inbound) *)
+Theorem C06_direction n ds e cid c c' :
+  (cid < n_next_cid n)%nat ->
+  get_conn n cid = Some c -> is_ready_state (c_state c) = false ->
+  get_conn (fst (step n ds e)) cid = Some c' -> is_ready_state (c_state c') = true ->
+  exists ms, e = ERecv cid ms /\
+    ((c_state c = SConnected /\ c_recv c = false /\ exists m, List.In m ms /\ is_good_cea m) \/
+     ((c_state c = SConnected -> c_recv c = true) /\ exists m, List.In m ms /\ is_good_cer n m)).
+Proof. exact (@NodeA.C06_direction n ds e cid c c'). Qed.
+
+(* C06: an outbound CONNECTED connection becomes ready only by a CEA 2001 *)
+Theorem C06_direction_outbound n ds e cid c c' :
+  (cid < n_next_cid n)%nat ->
+  get_conn n cid = Some c -> c_state c = SConnected -> c_recv c = false ->
+  get_conn (fst (step n ds e)) cid = Some c' -> is_ready_state (c_state c') = true ->
+  exists ms, e = ERecv cid ms /\ exists m, List.In m ms /\ is_good_cea m.
+Proof. exact (@NodeA.C06_direction_outbound n ds e cid c c'). Qed.
+
+(* C06: a CEA never revives a connection: one that is CONNECTING, DISCONNECTING, CLOSING or CLOSED becomes
+   ready only by a CER of a configured peer; a read that holds answers only leaves it not ready *)
+Theorem C06_cea_never_revives n ds e cid c c' :
+  (cid < n_next_cid n)%nat ->
+  get_conn n cid = Some c ->
+  (c_state c = SConnecting \/ c_state c = SDisconnecting \/ c_state c = SClosing \/ c_state c = SClosed) ->
+  get_conn (fst (step n ds e)) cid = Some c' ->
+  (is_ready_state (c_state c') = true ->
+   exists ms, e = ERecv cid ms /\ exists m, List.In m ms /\ is_good_cer n m) /\
+  (forall ms, e = ERecv cid ms -> (forall m, List.In m ms -> m_req m = false) ->
+   is_ready_state (c_state c') = false).
+Proof. exact (@NodeA.C06_cea_never_revives n ds e cid c c'). Qed.
 End FromNodeA.
 
 Print Assumptions FromNodeA.C06_gate_connected.
 Print Assumptions FromNodeA.C06_gate_closing.
 Print Assumptions FromNodeA.C06_cer_known.
+Print Assumptions FromNodeA.C06_cer_known_no_rivals.
+Print Assumptions FromNodeA.C06_cer_election_won.
+Print Assumptions FromNodeA.C06_cer_election_lost.
 Print Assumptions FromNodeA.C06_cer_unknown.
 Print Assumptions FromNodeA.C06_cer_no_common.
+Print Assumptions FromNodeA.C06_cer_no_common_no_rivals.
 Print Assumptions FromNodeA.C06_unknown_then_closed.
 Print Assumptions FromNodeA.C06_outbound_first_is_cer.
+Print Assumptions FromNodeA.C06_cea_accepted.
 Print Assumptions FromNodeA.C06_cea_rejected.
+Print Assumptions FromNodeA.C06_cea_wrong_identity.
+Print Assumptions FromNodeA.C06_cea_without_origin.
+Print Assumptions FromNodeA.C06_cea_ignored_unless_connected.
 Print Assumptions FromNodeA.C06_timeout.
 Print Assumptions FromNodeA.conns_fresh_step.
 Print Assumptions FromNodeA.C06_ready_only_by_ce.
+Print Assumptions FromNodeA.C06_direction.
+Print Assumptions FromNodeA.C06_direction_outbound.
+Print Assumptions FromNodeA.C06_cea_never_revives.
